@@ -4,12 +4,13 @@
    C05_dict_assignment_by_label (addressed entries = the source's marginal by label; every other entry unchanged;
    dimensions kept) and C05_source_lacking_a_region_dimension_refused.  Also: dims/size preservation for every key
    and right-hand side, the frame of numpy indexed assignment, the exact-shape rule for whole-array ndarray
-   assignment.  Numbers and ndarrays assigned to a slice, and tuple / bare keys, are decided per configuration by
-   the exhaustive correspondence and the oracle. *)
+   assignment.  Numbers are covered for EVERY dict key, lists with repeated items included
+   (C05_number_fills_exactly_the_region_for_every_key); tuple / bare keys are dict keys (Proofs/KeyForms.v); ndarrays assigned
+   to a slice are decided per configuration by the exhaustive correspondence and the oracle. *)
 From Coq Require Import List Arith Ring_theory.
 Import ListNotations.
 From Flodym Require Import Base.ND Base.Env Np.Einsum Np.Index Model.Dims Model.Array Model.SubArray
-  Proofs.ArrayLemmas Proofs.IndexProofs Proofs.OrthoIndex Proofs.HandlerProofs Proofs.GetitemSpec Proofs.SetIndexProofs Proofs.SetitemSpec Proofs.KeyForms.
+  Proofs.ArrayLemmas Proofs.IndexProofs Proofs.OrthoIndex Proofs.HandlerProofs Proofs.GetitemSpec Proofs.SetIndexProofs Proofs.SetitemSpec Proofs.KeyForms Proofs.SetitemFill.
 
 Theorem C05_assignment_keeps_dims_and_size :
   forall (R : Type) (rO rI : R) (radd rmul : R -> R -> R) (a a' : farr R) k r,
@@ -114,3 +115,25 @@ Theorem C05_number_fills_the_region :
         ~ in_region F (adims a) e -> den R rO a' e = den R rO a e).
 Proof. exact setitem_number_fills. Qed.
 Print Assumptions C05_number_fills_the_region.
+
+(* target[{...}] = number for EVERY well-formed dict key: single items, subset Dimensions and lists of items in any combination,
+   subsets and lists in any order and naming an item as often as they like (no hypothesis on repetitions): the number fills
+   exactly the addressed region, nothing else changes *)
+Theorem C05_number_fills_exactly_the_region_for_every_key :
+  forall (R : Type) (rO rI : R) (radd rmul : R -> R -> R) (a a' : farr R) kvs (c : R),
+  wf R a -> wf_dict (adims a) no_asg kvs ->
+  let F := asg_of no_asg kvs in
+  setitem R rO rI radd rmul a (KDict kvs) (RNum R c) = Ok a' ->
+  adims a' = adims a
+  /\ (forall e, (forall d, In d (adims a) -> lookup e (dletter d) < dlen d) -> in_region F (adims a) e -> den R rO a' e = c)
+  /\ (forall e, (forall d, In d (adims a) -> lookup e (dletter d) < dlen d) -> ~ in_region F (adims a) e -> den R rO a' e = den R rO a e).
+Proof. exact setitem_number_fills_region. Qed.
+Print Assumptions C05_number_fills_exactly_the_region_for_every_key.
+
+(* an instance with a list naming an item twice and a single item: a[{r: [22, 20, 22], t: 11}] = 9 *)
+Example ex_C05_number_into_a_list_with_a_repeated_item :
+  let dt := mk_dim 116 0 [10; 11] in let dr := mk_dim 114 1 [20; 21; 22] in
+  let a := mk_farr [dt; dr] [1; 2; 3; 4; 5; 6] in
+  setitem nat 0 1 Nat.add Nat.mul a (KDict [(KLetter 114, IList [22; 20; 22]); (KLetter 116, ISingle 11)]) (RNum nat 9)
+  = Ok (mk_farr [dt; dr] [1; 2; 3; 9; 5; 9]).
+Proof. vm_compute. reflexivity. Qed.
